@@ -79,6 +79,9 @@ def nice_model(c, extra=(), seed=0, budget_ms=4000):
     grid = [z3.And(z >= -4, z <= 4, z3.IsInt(z * 8)) for z in reals] + [z3.And(z >= -16, z <= 16) for z in ints]
     box = [z3.And(z >= -64, z <= 64) for z in reals]
     attempts = [grid, box, []]
+    prefs = list(getattr(c, "prefs", ()))
+    if prefs:
+        attempts = [grid + prefs, box + prefs] + attempts
     old = c.timeout_ms
     for i, att in enumerate(attempts):
         s.push()
@@ -503,8 +506,9 @@ def _discharge(case, c, ob: Ob, out, opts):
             if reproduced:
                 break
             attempt += 1
-            if attempt <= 3 and isinstance(cond, Sym):
-                # the solver's corner model may differ from the real run only within float tolerance: look for a
+            if attempt <= 3:
+                # the solver's corner model may differ from the real run only within float tolerance (or, for a
+                # structural obligation, coincide in inputs the harness tells apart by content): look for a
                 # generic witness (random evaluation) and replay that instead
                 w2 = _witness_by_evaluation(c, neg, opts.get("seed", 0) + 101 * attempt, tries=150)
                 if w2 is not None:
